@@ -17,7 +17,7 @@ pub fn prop() -> Prop {
     Prop {
         id: "C17",
         level: "model_checking",
-        rule: "sessions on a REAL retained (Compiler, VM) pair, every line fed through the real parse -> compile_ast -> run: (1) all sessions of <= 3 lines over a 52-line alphabet (declarations, re-declarations, assignments, expressions over earlier globals, a loop, self-contained function definitions with calls, a block with a local, heap-valued lines, three parse failures, compile failures at every statement position, run-time failures after k completed assignments and inside a nested call); (2) crash points: for every session of <= 2 lines and every line of it, the injected failure after k instructions for EVERY k up to the line's length, followed by probe lines reading every global; (3) breadth-first search to depth d over a 14-line core alphabet with states merged on the fingerprint of compiler + VM + model environment. (5) session-length ladder: N lines each adding a global and new constants (integers, floats and strings, or a function per line), N around every power of two up to 1025, three failing lines in the middle, earlier and newest globals read back along the way. (4) long sessions, deviation-bounded: four ordinary ten-line sessions (declarations, re-declarations, blocks, loops, functions, heap values, output), every crash point of every one of their lines with the rest of the session as continuation, and every insertion of ONE or TWO lines from a 21-line deviation set (parse / compile / run-time failures at several statement positions, in blocks, in functions, after output and after completed effects, misplaced stop, re-declaration, empty line) at every position: sessions of up to 12 lines. Oracle: a session model on the reference interpreter (a line that fails before running contributes nothing, a line that fails while running contributes exactly the effects it completed), equality of every line's value/output/error kind; for an injected failure the state afterwards must equal the model after SOME prefix of the line's effects; sessions without failing lines must also agree with eval of the concatenated text. The shadow heap stays on across lines",
+        rule: "sessions on a REAL retained (Compiler, VM) pair, every line fed through the real parse -> compile_ast -> run: (1) all sessions of <= 3 lines over a 52-line alphabet (declarations, re-declarations, assignments, expressions over earlier globals, a loop, self-contained function definitions with calls, a block with a local, heap-valued lines, three parse failures, compile failures at every statement position, run-time failures after k completed assignments and inside a nested call); (2) crash points: for every session of <= 2 lines and every line of it, the injected failure after k instructions for EVERY k up to the line's length, followed by probe lines reading every global; (3) breadth-first search to depth d over a 14-line core alphabet with states merged on the fingerprint of compiler + VM + model environment. (6) failing-lines ladder: N consecutive lines that fail inside a nested call with operands pending (N around every power of two up to 4097 / 16 385: about 20 operands are pending when each fails, so 3 300 lines would fill the 65 535-slot stack if anything accumulated), then a declaration, a 5 000-deep recursion and a read-back. (5) session-length ladder: N lines each adding a global and new constants (integers, floats and strings, or a function per line), N around every power of two up to 1025, three failing lines in the middle, earlier and newest globals read back along the way. (4) long sessions, deviation-bounded: four ordinary ten-line sessions (declarations, re-declarations, blocks, loops, functions, heap values, output), every crash point of every one of their lines with the rest of the session as continuation, and every insertion of ONE or TWO lines from a 21-line deviation set (parse / compile / run-time failures at several statement positions, in blocks, in functions, after output and after completed effects, misplaced stop, re-declaration, empty line) at every position: sessions of up to 12 lines. Oracle: a session model on the reference interpreter (a line that fails before running contributes nothing, a line that fails while running contributes exactly the effects it completed), equality of every line's value/output/error kind; for an injected failure the state afterwards must equal the model after SOME prefix of the line's effects; sessions without failing lines must also agree with eval of the concatenated text. The shadow heap stays on across lines",
         assumptions: &[
             "calls to a function defined by an EARLIER line are outside the property (upstream limitation) and not in the alphabet",
             "results handed back by run() are not released by the harness in session mode (they may alias globals or constants)",
@@ -246,14 +246,20 @@ pub fn run_session(lines: &[String]) -> SessionResult {
     let mut steps = Vec::new();
     let mut outputs = String::new();
     let mut last: Option<Step> = None;
+    let (mut t_model, mut t_real) = (std::time::Duration::ZERO, std::time::Duration::ZERO);
     for (i, ast) in asts.iter().enumerate() {
+        let t0 = std::time::Instant::now();
         let m = model_line(&mut model, ast);
+        t_model += t0.elapsed();
+        let t0 = std::time::Instant::now();
+        let _ = &t0;
         if matches!(m.end, End::Unspec(_) | End::Diverge) {
             // the meaning of the rest of the session is not fixed
             any_unspec = true;
             break;
         }
         let s = real.line(ast, None);
+        t_real += t0.elapsed();
         steps.push(s.steps);
         if !matches!(s.end, ImplEnd::Value(_)) {
             all_ok = false;
@@ -283,6 +289,9 @@ pub fn run_session(lines: &[String]) -> SessionResult {
             problem = Some(format!("every line of the session succeeded, but eval of the concatenated text gives {}", impl_end_text(&one.end)));
         }
         // run_text reset the hooks: turn the ledger back on is pointless now, the session is over
+    }
+    if std::env::var_os("NLMC_TIME").is_some() {
+        println!("{} lines: model {:?}, real {:?}", lines.len(), t_model, t_real);
     }
     if std::env::var_os("NLMC_FP").is_some() {
         println!("FP {:?}\n   real  {}\n   model {}", lines, real.fingerprint(), model.fingerprint());
@@ -602,8 +611,45 @@ fn session_ladder(sh: &mut Shard) {
     }
 }
 
+/// Failing-lines ladder: N lines in a row that fail at run time inside a nested call with operands pending
+/// (what such a line leaves on the machine's stack and frame list must not accumulate), N around every power
+/// of two and across 65 536, followed by lines that need a clean machine: a declaration, a deep recursion,
+/// a read-back.
+fn failing_lines_ladder(sh: &mut Shard) {
+    let tier = sh.cfg.tier;
+    // (a failing line leaves about 20 operands behind if nothing clears them: 3 300 such lines would fill the
+    // 65 535-slot stack; the cost of a session grows with the square of its length — one function constant per line)
+    let mut sizes: Vec<usize> = vec![1, 2, 3, 10, 100, 1000, 3000, 3300, 3500];
+    for k in 2..=(if tier == Tier::Quick { 12 } else { 14 }) {
+        let n = 1usize << k;
+        sizes.extend([n - 1, n, n + 1]);
+    }
+    sizes.sort();
+    sizes.dedup();
+    for n in sizes {
+        for flavour in 0..2 {
+            // (anonymous functions applied on the spot: a named one would add a global per line)
+            let failing = if flavour == 0 {
+                "[1, 2, 3, 4, 5, 6, 7, 8, 9, 10, 11, 12, 13, 14, (functie(x) { [x, \"s\", 1 + (2 + (x + ja))] })(2), 3]"
+            } else {
+                "teller = 0; [1, 2, 3, 4, 5, 6, 7, 8, 9, 10, 11, 12, 13, 14, (functie(x) { zolang ja { teller += 1; als teller > 2 { [1][9] } } })(1)]"
+            };
+            let mut lines: Vec<String> = vec!["stel houd = [1.5, \"vast\"]".to_string(), "stel teller = 0".to_string()];
+            lines.extend(std::iter::repeat(failing.to_string()).take(n));
+            lines.push("stel na = 41".to_string());
+            lines.push("functie r(k) { als k == 0 { antwoord 0 } 1 + r(k - 1) } r(5000)".to_string());
+            lines.push("[na + 1, houd]".to_string());
+            session_case(sh, "failing-lines-ladder", &lines);
+            if !sh.running() {
+                return;
+            }
+        }
+    }
+}
+
 fn run(sh: &mut Shard) {
     let tier = sh.cfg.tier;
+    failing_lines_ladder(sh);
     session_ladder(sh);
     long_sessions(sh);
     if !sh.running() {
